@@ -5,7 +5,9 @@ import (
 	"os"
 	"path/filepath"
 
+	rProto "github.com/thomasjungblut/go-sstables/recordio/proto"
 	"github.com/thomasjungblut/go-sstables/skiplist"
+	"google.golang.org/protobuf/proto"
 	"github.com/thomasjungblut/go-sstables/sstables"
 	sproto "github.com/thomasjungblut/go-sstables/sstables/proto"
 )
@@ -167,4 +169,89 @@ type metaOut struct {
 
 func metaOf(m *sproto.MetaData) metaOut {
 	return metaOut{m.NumRecords, m.NullValues, m.MinKey, m.MaxKey, m.DataBytes, m.IndexBytes, m.TotalBytes, m.Version}
+}
+
+// compressor oracle tables for a table directory: index payloads are the marshalled index entries
+func indexEntries(dir string) [][]byte {
+	var out [][]byte
+	r, err := rProto.NewReader(rProto.ReaderPath(filepath.Join(dir, sstables.IndexFileName)))
+	if err != nil {
+		return nil
+	}
+	if r.Open() != nil {
+		return nil
+	}
+	defer r.Close()
+	for {
+		e := &sproto.IndexEntry{}
+		if _, err := r.ReadNext(e); err != nil {
+			break
+		}
+		b, _ := proto.Marshal(e)
+		if b == nil {
+			b = []byte{}
+		}
+		out = append(out, b)
+	}
+	return out
+}
+
+func compTable(comp int, payloads [][]byte) string {
+	if comp == 0 {
+		return "()"
+	}
+	seen := map[string]bool{}
+	var xs []string
+	add := func(b []byte) {
+		if !seen[string(b)] {
+			seen[string(b)] = true
+			xs = append(xs, sxL(sxB(b), sxB(compressBytes(comp, b))))
+		}
+	}
+	add([]byte{})
+	for _, p := range payloads {
+		add(p)
+	}
+	return sxList(xs)
+}
+
+func sxMeta(m metaOut) string {
+	return sxL(sxN(m.NumRecords), sxN(m.NullValues), sxB(m.MinKey), sxB(m.MaxKey), sxN(m.DataBytes), sxN(m.IndexBytes))
+}
+
+func sxLoader(name string, seekLen int) string {
+	switch name {
+	case "slice":
+		return "(n0)"
+	case "skiplist":
+		return "(n1)"
+	case "map4":
+		return "(n2 n4)"
+	case "map20":
+		return "(n2 n20)"
+	}
+	if seekLen == 0 {
+		seekLen = 4096
+	}
+	return sxL("n3", sxI(seekLen))
+}
+
+func valuesOf(kvs []tblKV) [][]byte {
+	var out [][]byte
+	for _, kv := range kvs {
+		if !kv.Nil {
+			out = append(out, kv.val())
+		}
+	}
+	return out
+}
+
+func sxRes(ok string, err string) string {
+	if err != "" {
+		if _, known := errCodes[err]; !known {
+			err = "Other"
+		}
+		return sxErrRes(err)
+	}
+	return sxOk(ok)
 }
